@@ -441,7 +441,12 @@ pub fn replay_file(check: &dyn Check, root: &Path, path: &Path) -> i32 {
     }
 }
 
-pub const HANG_LIMIT_S: u64 = 60;
+pub const HANG_LIMIT_S_DEFAULT: u64 = 60;
+
+/// hang limit in seconds (VERIF_HANG_LIMIT_S overrides the default of 60; used by the self-tests)
+pub fn hang_limit_s() -> u64 {
+    std::env::var("VERIF_HANG_LIMIT_S").ok().and_then(|s| s.parse().ok()).unwrap_or(HANG_LIMIT_S_DEFAULT)
+}
 
 /// Execute in a helper thread so that a call that never returns is reported instead of hanging
 /// the replay (C01). The helper thread is leaked on a hang; the process exits soon after.
@@ -461,11 +466,11 @@ fn exec_with_watchdog(check: &dyn Check, t: &Trace, st: &mut Stats, ctx: &Ctx) -
             if done.load(Ordering::SeqCst) {
                 break;
             }
-            if start.elapsed().as_secs() >= HANG_LIMIT_S {
+            if start.elapsed().as_secs() >= hang_limit_s() {
                 println!(
                     "VIOLATION property={} replay=<given> rule=hang detail=an event did not return within {}s",
                     check.id(),
-                    HANG_LIMIT_S
+                    hang_limit_s()
                 );
                 std::process::exit(if check.id() == "C01" { 1 } else { 2 });
             }
@@ -483,6 +488,7 @@ struct Slot {
     run: u64,
     started_ms: u64,
     trace: Option<Trace>,
+    gen_log: std::sync::Arc<Mutex<(Option<crate::trace::Config>, Vec<crate::gen::Atom>)>>,
 }
 
 pub fn default_workers() -> usize {
@@ -586,7 +592,7 @@ pub fn run_check(check: &dyn Check, tier: Tier, seed: u64, runs_override: Option
     let min_fail = AtomicU64::new(u64::MAX);
     let hang = AtomicBool::new(false);
     let finished = AtomicBool::new(false);
-    let slots: Vec<Mutex<Slot>> = (0..workers).map(|_| Mutex::new(Slot { run: u64::MAX, started_ms: 0, trace: None })).collect();
+    let slots: Vec<Mutex<Slot>> = (0..workers).map(|_| Mutex::new(Slot { run: u64::MAX, started_ms: 0, trace: None, gen_log: std::sync::Arc::new(Mutex::new((None, vec![]))) })).collect();
     struct WorkerOut {
         stats: Stats,
         digests: Vec<u64>,
@@ -611,6 +617,10 @@ pub fn run_check(check: &dyn Check, tier: Tier, seed: u64, runs_override: Option
             let ctx = &ctx;
             let hang = &hang;
             s.spawn(move || {
+                {
+                    let log = slots[w].lock().unwrap().gen_log.clone();
+                    crate::sim::GEN_LOG.with(|g| *g.borrow_mut() = Some(log));
+                }
                 let mut o = WorkerOut {
                     stats: Stats::default(),
                     digests: vec![],
@@ -638,6 +648,9 @@ pub fn run_check(check: &dyn Check, tier: Tier, seed: u64, runs_override: Option
                             sl.run = run;
                             sl.started_ms = t0.elapsed().as_millis() as u64;
                             sl.trace = None;
+                            let mut gl = sl.gen_log.lock().unwrap();
+                            gl.0 = None;
+                            gl.1.clear();
                         }
                         let mut t = check.generate(&mut r, tier, &mut o.stats);
                         t.seed = seed;
@@ -698,11 +711,25 @@ pub fn run_check(check: &dyn Check, tier: Tier, seed: u64, runs_override: Option
             let now = t0.elapsed().as_millis() as u64;
             for sl in slots.iter() {
                 let sl = sl.lock().unwrap();
-                if sl.run != u64::MAX && now.saturating_sub(sl.started_ms) > HANG_LIMIT_S * 1000 {
-                    let detail = format!("run {} did not return within {}s", sl.run, HANG_LIMIT_S);
+                if sl.run != u64::MAX && now.saturating_sub(sl.started_ms) > hang_limit_s() * 1000 {
+                    let detail = format!("run {} did not return within {}s", sl.run, hang_limit_s());
                     let path = match &sl.trace {
                         Some(t) => write_replay(root, t, "hang", &detail, &format!("{}-{}-hang.json", seed, sl.run)),
-                        None => PathBuf::from("<hang-during-generation>"),
+                        None => {
+                            // the shadow terminal of the generator did not return: the history it
+                            // had produced so far (last atom = the one being delivered) is the trace
+                            let gl = sl.gen_log.lock().unwrap();
+                            match &gl.0 {
+                                Some(cfg) => {
+                                    let mut t = Trace::new(id, cfg.clone());
+                                    t.seed = seed;
+                                    t.run = sl.run;
+                                    t.events = crate::sim::events_of_log(&gl.1);
+                                    write_replay(root, &t, "hang", &detail, &format!("{}-{}-hang.json", seed, sl.run))
+                                }
+                                None => PathBuf::from("<hang-before-any-event>"),
+                            }
+                        }
                     };
                     if id == "C01" {
                         println!("VIOLATION property={} replay={} rule=hang detail={}", id, path.display(), detail);
